@@ -124,6 +124,11 @@ def histories(ctx):
             tgt = sq.dystr(Fraction(float(latest + Fraction(1, 2))))
             h5 = sq.PREFIX + hooks + ["loop 1", "loopcount %d" % n, "opendata " + img.hex(), "seek " + tgt, "loopend", "tickall 400000 " + GRAN, "atend"]
             hs.append((h5, {"song": song, "start": start, "end": end, "valid": valid, "enabled": True, "n": n, "obs": len(h5) - 2, "kind": kind + "/seek-tail"}))
+        if i % 4 == 2:
+            # the count is changed after the load; the song is then started over: the new count is the one in force
+            n0 = rng.choice([x for x in (1, 2, 3, 4) if x != n])
+            h6 = sq.PREFIX + hooks + ["loop 1", "loopcount %d" % n0, "opendata " + img.hex(), "loopcount %d" % n, "rewind", "loopend", "tickall 400000 " + GRAN, "atend"]
+            hs.append((h6, {"song": song, "start": start, "end": end, "valid": valid, "enabled": True, "n": n, "obs": len(h6) - 2, "kind": kind + "/recount"}))
         if i % 3 == 2:
             # endless repetition: still not at the end after many passes
             h4 = sq.PREFIX + hooks + ["loop 1", "loopcount -1", "opendata " + img.hex(), "loopstart", "loopend", "tickall 3000 " + GRAN, "atend"]
@@ -193,7 +198,7 @@ def run(tier, replay=None):
                     fails.append("loop-end hook fired %d times, expected %d (count %d, %s)" % (LE, want_le, n, meta["kind"]))
                 explicit_start = meta["enabled"] and meta["valid"] and meta["start"] is not None
                 want_ls = n if (meta["enabled"]) else 0
-                rewound = meta["kind"].endswith("/seek-tail")
+                rewound = meta["kind"].endswith(("/seek-tail", "/recount"))
                 if LS != want_ls:
                     if meta["enabled"] and ((not explicit_start and LS == (1 if rewound else 0)) or (explicit_start and rewound and LS == want_ls + 1)):
                         known_hits.append("%s: loop-start hook fired %d times in %d passes" % (meta["kind"], LS, n))
